@@ -63,8 +63,11 @@ def norm_result(m, c, s, info):
             'fields': {k: repr(lang.norm(v)) for k, v in (info.get('extra_fields') or {}).items()}, 'raw': info.get('raw_values')}
 
 
-def do_load(path, mode):
+def do_load(path, mode, transforms_first=False):
     from tally import merchant_utils as mu
+    if transforms_first and path:          # the order `tally up`, explain and discover use
+        transforms = mu.get_transforms(path, match_mode=mode)
+        return mu.get_all_rules(path, match_mode=mode), transforms
     rules = mu.get_all_rules(path, match_mode=mode) if path else mu.get_all_rules(match_mode=mode)
     transforms = mu.get_transforms(path, match_mode=mode) if path else []
     return rules, transforms
@@ -331,6 +334,12 @@ def make_pool(rnd, tmp, k):
         # a winning rule whose field: values ARE supplemental rows (with their date cells): classification hands them out, it does not rewrite them
         a.rules.insert(rnd.randint(0, min(2, len(a.rules))), R.Rule('RowFields', rnd.choice(['contains("NETFLIX")', 'contains("UBER")', 'amount > 0']), 'RowFieldsCat', 'x',
                                                                   fields=[('ev', '[r for r in events]'), ('first', 'events2[1]'), ('n', 'len(events)')]))
+    if rnd.random() < .5:
+        # sum(lists, start) concatenates like Python's: a NEW list, the supplemental source given as the start value keeps its rows
+        a.rules.insert(rnd.randint(0, min(2, len(a.rules))), R.Rule('SumStart', rnd.choice(['contains("NETFLIX") and len(everything) > 2', 'len(everything) >= 3 and amount != 0',
+                                                                                            'contains("UBER") and len(sum([[x for x in events3] for r in events3], events2)) == 3']),
+                                                                  'SumStartCat', 'x', lets=[('everything', 'sum([[x for x in events3] for r in events2 if r.amt > 1], events)')],
+                                                                  fields=[('n_events', 'len(events)'), ('n_all', 'len(everything)')]))
     b = near_duplicate(a, rnd)
     for r in b.rules:
         if r.name.startswith('Bait'):
@@ -415,7 +424,7 @@ def run_sequence(rec, pool, pr, rnd, nops, tmp, fresh_rate):
             nm = rnd.choice(names)
             mode = rnd.choice(['first_match', 'first_match', 'most_specific'])
             f = pool['files'][nm]
-            handle = do_load(f['path'], mode)
+            handle = do_load(f['path'], mode, transforms_first=rnd.random() < .5)
             if prev_kind is not None and prev_kind != f['kind']:
                 rec.count('load_kind_transitions')
                 rec.count('transition:%s->%s' % (prev_kind, f['kind']))
@@ -423,7 +432,14 @@ def run_sequence(rec, pool, pr, rnd, nops, tmp, fresh_rate):
             continue
         f = pool['files'][cur]
         if op == 'reload':
-            handle = do_load(f['path'], mode)
+            if f['kind'] == 'rules' and rnd.random() < .6:
+                # the user EDITS the rules file in place (a transform line added or removed at the top) and the same path is loaded again
+                line = 'field.description = regex_replace(field.description, "^(SQ \\\\*|AMZN Mktp )", "")\n'
+                f['text'] = f['text'][len(line):] if f['text'].startswith(line) else line + f['text']
+                O.write(f['path'], f['text'])
+                f['rev'] = f.get('rev', 0) + 1
+                rec.count('rules_files_edited_in_place_and_reloaded')
+            handle = do_load(f['path'], mode, transforms_first=rnd.random() < .7)
             continue
         txn = rnd.choice(pool['txns'])
         case_base = {'kind': 'history', 'file': cur, 'file_kind': f['kind'], 'mode': mode, 'step': step}
@@ -456,7 +472,7 @@ def run_sequence(rec, pool, pr, rnd, nops, tmp, fresh_rate):
                 rec.violation('classify-mutates-rules-or-rows', f'{op} after load {cur}: rule tuples or supplemental rows changed', dict(case_base, txn=O.jtxn(txn)))
             if rows_here is None:
                 rec.count('classify_without_supplemental_data')
-            q = {'op': op, 'path': f['path'], 'mode': mode, 'txn': O.jtxn(txn), 'rows': rows_to_json(rows_here)}
+            q = {'op': op, 'path': f['path'], 'mode': mode, 'txn': O.jtxn(txn), 'rows': rows_to_json(rows_here), 'rev': f.get('rev', 0)}
             want = pr.ask(q)
             rec.count('pristine_queries_asked')
             rec.count('classify_vs_pristine')
